@@ -112,7 +112,9 @@ CHECKS = {
              "failure handed to the error type once at the container's location; result flows into the output); field level, every script (c11_field_stage_ok / _err): once the field's value has "
              "deserialized its from/try_from function runs exactly once, right then, on that value - a failing try_from is handed to the field's error type, then to the container's, at the field's "
              "location - and when the value did not deserialize no function runs; (c11_maps_at_construction) map functions run once each in field order, skipped fields last, on the final values. "
-             "The whole invocation sequence under a keep-going error type is the specified one (c02_refinement). Correspondence + Spec.v monitor on the sequence of invocations (mon_c11) + linearity monitor.",
+             "The whole invocation sequence under a keep-going error type is the specified one (c02_refinement). Correspondence + Spec.v monitor on the sequence of invocations (mon_c11) + linearity monitor. Outside the model (no theorem): user functions that return the impl's own error type "
+             "(try_from / validate -> E, field-level try_from -> E) are exercised through hand-written derive inputs (harness/src/own.rs) and judged by a monitor on the trace alone: each error such a "
+             "function returns is handed over by the very next call at the container's (field's) location, and the hand-overs are exactly the failures of the payload.",
         ref="5 C11", technique="Coq run equations; in-Coq differential check with logging user functions + Spec.v monitor of the invocation sequence",
         note="Trusted: as C01 + the harness's user-function library and its Gallina twin (ufail). Field-level stages: under a keep-going error type the full sequence of invocations is the specified one by c02_refinement (trace_ucalls = s_ucalls); other scripts by correspondence. No axioms."),
     "C12": dict(
@@ -149,7 +151,7 @@ CHECKS = {
     "C07": dict(
         text="Proof: (c07_pairing) for every field list in any declaration order and attribute mix, the match arms generated from the vectors of NamedFieldsInfo are, position by position, the "
              "non-skipped fields in declaration order, each with its identifier, effective key, type, error type, conversion, default, map and missing-field function (stable sort + positional "
-             "zip proved); (c07_variant_scope) a variant's fields are renamed by the variant's own rename_all only; (c07_effective_key) rename, else rename_all, else identifier; (c07_member_fills_first_claimant, c07_claimed_key_fills) for every field list, colliding keys included, a member only ever fills a field whose effective key is exactly the member's key - the first one declared with it; (c07_field_filled_from_own_key, c07_own_member_result, specification level, interpreter through the C02 refinement) with "
+             "zip proved); (c07_variant_scope) a variant's fields are renamed by the variant's own rename_all only; (c07_effective_key) rename, else rename_all, else the identifier itself (without the raw-identifier escape: r#type is keyed type); (c07_member_fills_first_claimant, c07_claimed_key_fills) for every field list, colliding keys included, a member only ever fills a field whose effective key is exactly the member's key - the first one declared with it; (c07_field_filled_from_own_key, c07_own_member_result, specification level, interpreter through the C02 refinement) with "
              "distinct keys the value a field ends with is the result of the one member carrying exactly its effective key, whatever the other members are, else its default. camelCase / "
              "lowercase (convert_case, to_lowercase) are modelled for ASCII identifiers and tied by correspondence on generated derive inputs with payloads over all plausible keys.",
         ref="5 C07", technique="Coq theorems about the derive front-end model (list/zip/filter lemmas); in-Coq differential check on generated derive inputs compiled by the real macro",
